@@ -58,7 +58,8 @@ def random_walk(rng, n, restarts):
         elif x < 0.65:
             e = rng.choice(["I", "A"])
             cnt[e] += 1
-            evs.append({"t": "send", "e": e, "pay": "11=%s%d" % (e.lower(), cnt[e])})
+            # every third payload carries single-byte text outside ASCII: what is lost and replayed must arrive as it was sent
+            evs.append({"t": "send", "e": e, "pay": ("11=%s\xe9\xff%d" if cnt[e] % 3 == 0 else "11=%s%d") % (e.lower(), cnt[e])})
         elif x < 0.73:
             ev = {"t": "break", "ki": rng.randint(0, 3), "ka": rng.randint(0, 3)}
             if rng.random() < 0.4:
